@@ -990,4 +990,214 @@ theorem spec_eqMapping_iff [DecidableEq V] (L m : List (K × V)) (hm : (dkeys m)
     simpa [dkeys] using hp.length_eq
 
 end inv
+
+/-! ### sorting -/
+section sorting
+variable {α : Type}
+
+theorem insBy_perm (le : α → α → Bool) (x : α) (l : List α) : (insBy le x l).Perm (x :: l) := by
+  induction l with
+  | nil => simp [insBy]
+  | cons y ys ih =>
+    simp only [insBy]
+    split
+    · exact List.Perm.refl _
+    · exact ((List.Perm.cons y ih).trans (List.Perm.swap x y ys))
+
+theorem sortBy_perm (le : α → α → Bool) (l : List α) : (sortBy le l).Perm l := by
+  induction l with
+  | nil => simp [sortBy]
+  | cons x xs ih =>
+    simp only [sortBy, List.foldr_cons] at ih ⊢
+    exact (insBy_perm le x _).trans (List.Perm.cons x ih)
+
+theorem insBy_sorted (le : α → α → Bool) (htot : ∀ a b, le a b = true ∨ le b a = true)
+    (htr : ∀ a b c, le a b = true → le b c = true → le a c = true) (x : α) (l : List α)
+    (h : l.Pairwise (fun a b => le a b = true)) : (insBy le x l).Pairwise (fun a b => le a b = true) := by
+  induction l with
+  | nil => simp [insBy]
+  | cons y ys ih =>
+    rw [List.pairwise_cons] at h
+    simp only [insBy]
+    split
+    · rename_i hxy
+      rw [List.pairwise_cons]
+      refine ⟨?_, List.pairwise_cons.mpr h⟩
+      intro z hz
+      rcases List.mem_cons.mp hz with rfl | hz
+      · exact hxy
+      · exact htr _ _ _ hxy (h.1 z hz)
+    · rename_i hxy
+      rw [List.pairwise_cons]
+      refine ⟨?_, ih h.2⟩
+      intro z hz
+      have := (insBy_perm le x ys).mem_iff.mp hz
+      rcases List.mem_cons.mp this with rfl | hz
+      · rcases htot z y with h1 | h1
+        · exact absurd h1 hxy
+        · exact h1
+      · exact h.1 z hz
+
+theorem sortBy_sorted (le : α → α → Bool) (htot : ∀ a b, le a b = true ∨ le b a = true)
+    (htr : ∀ a b c, le a b = true → le b c = true → le a c = true) (l : List α) :
+    (sortBy le l).Pairwise (fun a b => le a b = true) := by
+  induction l with
+  | nil => simp [sortBy]
+  | cons x xs ih =>
+    simp only [sortBy, List.foldr_cons] at ih ⊢
+    exact insBy_sorted le htot htr x _ ih
+
+/-- sorting an already sorted list changes nothing (in particular the order among equals) -/
+theorem sortBy_of_sorted (le : α → α → Bool) (l : List α)
+    (h : l.Pairwise (fun a b => le a b = true)) : sortBy le l = l := by
+  induction l with
+  | nil => rfl
+  | cons x xs ih =>
+    rw [List.pairwise_cons] at h
+    simp only [sortBy, List.foldr_cons] at ih ⊢
+    rw [ih h.2]
+    cases xs with
+    | nil => rfl
+    | cons y ys => simp [insBy, h.1 y (by simp)]
+
+theorem flipIf_total (rev : Bool) (le : α → α → Bool) (htot : ∀ a b, le a b = true ∨ le b a = true) :
+    ∀ a b, flipIf rev le a b = true ∨ flipIf rev le b a = true := by
+  intro a b; cases rev
+  · exact htot a b
+  · exact htot b a
+
+theorem flipIf_trans (rev : Bool) (le : α → α → Bool)
+    (htr : ∀ a b c, le a b = true → le b c = true → le a c = true) :
+    ∀ a b c, flipIf rev le a b = true → flipIf rev le b c = true → flipIf rev le a c = true := by
+  intro a b c; cases rev
+  · exact htr a b c
+  · exact fun h1 h2 => htr c b a h2 h1
+
+end sorting
+
+/-! ### `sortedvalues` -/
+section sortedvalues
+variable {K V : Type} [DecidableEq K]
+
+theorem dget_mapSnd {β γ : Type} (f : β → γ) (k : K) (d : List (K × β)) :
+    dget k (d.map fun kv => (kv.1, f kv.2)) = (dget k d).map f := by
+  induction d with
+  | nil => rfl
+  | cons p r ih => simp only [List.map_cons, dget]; split <;> simp_all
+
+theorem count_keys (k : K) (L : List (K × V)) : (L.map (·.1)).count k = (valsOf k L).length := by
+  induction L with
+  | nil => rfl
+  | cons p r ih =>
+    simp only [List.map_cons, List.count_cons, valsOf_cons, ih]
+    by_cases e : p.1 = k <;> simp [e]
+
+theorem svLoop_spec (ks : List K) : ∀ (ret : OMD K V) (m : List (K × List V)), Inv ret →
+    (∀ k, ks.count k ≤ ((dget k m).getD []).length) →
+    ∃ ret' B, OMD.svLoop ret m ks = (ret', .unit) ∧ Inv ret' ∧ ret'.cells = ret.cells ++ B ∧
+      B.map (·.1) = ks ∧ ∀ k, valsOf k B = (((dget k m).getD []).reverse).take (ks.count k) := by
+  induction ks with
+  | nil =>
+    intro ret m hr _
+    exact ⟨ret, [], rfl, hr, by simp, rfl, by simp⟩
+  | cons k r ih =>
+    intro ret m hr hm
+    have hk := hm k
+    simp only [List.count_cons_self] at hk
+    cases hd : dget k m with
+    | none => simp [hd] at hk
+    | some l =>
+      simp only [hd, Option.getD_some] at hk
+      have hne : l ≠ [] := by intro e; subst e; simp at hk
+      obtain ⟨v, hv⟩ := getLast?_of_ne hne
+      obtain ⟨ys, hys⟩ := List.getLast?_eq_some_iff.mp hv
+      have hdl : l.dropLast = ys := by rw [hys]; simp
+      have hm' : ∀ k', r.count k' ≤ ((dget k' (dset k ys m)).getD []).length := by
+        intro k'
+        rw [dget_dset]
+        split
+        · rename_i e; subst e
+          simp only [Option.getD_some]
+          rw [hys] at hk; simp at hk; omega
+        · rename_i e
+          have := hm k'
+          have hne' : ¬ (k == k') = true := by simp; exact fun e' => e e'.symm
+          simp only [List.count_cons, hne', Bool.false_eq_true, ↓reduceIte, Nat.add_zero] at this
+          exact this
+      obtain ⟨ret', B', h1, h2, h3, h4, h5⟩ := ih (ret.add k v) (dset k ys m) (inv_add hr k v) hm'
+      refine ⟨ret', (k, v) :: B', ?_, h2, ?_, ?_, ?_⟩
+      · simp only [OMD.svLoop, hd, hv, hdl]; exact h1
+      · rw [h3]; simp
+      · simp [h4]
+      · intro k'
+        rw [valsOf_cons, h5 k', dget_dset]
+        by_cases e : k = k'
+        · subst e
+          simp only [↓reduceIte, Option.getD_some, hd, List.count_cons_self]
+          rw [hys]; simp [List.take_succ_cons]
+        · have e' : ¬ k' = k := fun x => e x.symm
+          have hne' : ¬ (k == k') = true := by simp; exact e
+          simp [e, e', List.count_cons, hne']
+
+theorem sortedvalues_spec {s : OMD K V} (h : Inv s) (le : V → V → Bool) (rev : Bool) :
+    ∃ r, s.sortedvalues le rev = (r, .unit) ∧ Inv r ∧ r.cells.map (·.1) = s.cells.map (·.1) ∧
+      ∀ k, valsOf k r.cells = (sortBy (flipIf (!rev) le) (valsOf k s.cells)).reverse := by
+  unfold OMD.sortedvalues
+  have hg : ∀ k, (dget k (s.vals.map fun kv => (kv.1, sortBy (flipIf (!rev) le) kv.2))).getD [] =
+      sortBy (flipIf (!rev) le) (valsOf k s.cells) := by
+    intro k
+    rw [dget_mapSnd, h.agree]
+    cases hv : valsOf k s.cells <;> simp [ne?, sortBy]
+  obtain ⟨r, B, h1, h2, h3, h4, h5⟩ := svLoop_spec s.keysM (OMD.empty : OMD K V) _ inv_empty (by
+    intro k
+    rw [hg, (sortBy_perm _ _).length_eq, OMD.keysM, count_keys]
+    exact Nat.le_refl _)
+  refine ⟨r, h1, h2, ?_, ?_⟩
+  · rw [h3]; simpa [OMD.empty, OMD.keysM] using h4
+  · intro k
+    rw [h3]
+    simp only [OMD.empty, List.nil_append, h5 k, hg]
+    apply List.take_of_length_le
+    rw [List.length_reverse, (sortBy_perm _ _).length_eq, OMD.keysM, count_keys]
+    exact Nat.le_refl _
+
+end sortedvalues
+
+section misc
+variable {K V : Type} [DecidableEq K]
+
+/-- `update(mapping)`: assigning key after key is "drop every mentioned key, append the mapping" -/
+theorem setAll_eq_replaceBy (L m : List (K × V)) (hm : (dkeys m).Nodup) :
+    Spec.setAll L m = Spec.replaceBy L m := by
+  induction m generalizing L with
+  | nil => simp [Spec.setAll, Spec.replaceBy]; exact (List.filter_eq_self.mpr (fun _ _ => rfl)).symm
+  | cons p r ih =>
+    simp only [dkeys, List.map_cons, List.nodup_cons] at hm
+    have := ih (Spec.setitem L p.1 p.2) hm.2
+    simp only [Spec.setAll, List.foldl_cons] at this ⊢
+    rw [this]
+    simp only [Spec.replaceBy, Spec.setitem, Spec.remove, List.filter_append, List.filter_filter, List.map_cons,
+      List.filter_cons, List.filter_nil]
+    have hp : (!decide (p.1 ∈ r.map (·.1))) = true := by simp; simpa using hm.1
+    simp only [hp, ↓reduceIte, List.append_assoc, List.cons_append, List.nil_append]
+    congr 1
+    apply List.filter_congr
+    intro q _
+    by_cases e : q.1 = p.1 <;> simp [notK, e]
+
+/-- on the plain list a failing operation changes nothing -/
+theorem spec_err_unchanged (st : Spec.HState K V) (op : HOp K V) (e : Err)
+    (h : (Spec.hstep st op).2 = .err e) : (Spec.hstep st op).1 = st := by
+  obtain ⟨s, t⟩ := st
+  cases op <;> simp only [Spec.hstep, Spec.withS] at h ⊢ <;> try (simp at h; done)
+  all_goals (
+    first
+    | (unfold Spec.delitem at h ⊢; split at h <;> simp_all)
+    | (unfold Spec.setdefault at h ⊢; split at h <;> simp_all)
+    | (unfold Spec.pop Spec.missing at h ⊢; split at h <;> simp_all)
+    | (unfold Spec.popall Spec.missing at h ⊢; split at h <;> simp_all)
+    | (unfold Spec.poplast Spec.missing at h ⊢; split at h <;> split at h <;> simp_all)
+    | (unfold Spec.popitem at h ⊢; split at h <;> simp_all))
+
+end misc
 end C01
